@@ -2,9 +2,11 @@ package main
 
 import (
 	"fmt"
+	"go/ast"
 	"go/token"
 	"go/types"
 	"os"
+	"path/filepath"
 	"sort"
 	"strings"
 
@@ -14,18 +16,18 @@ import (
 )
 
 type Engine struct {
-	prog      *ssa.Program
-	pkgs      []*ssa.Package
-	tpkgs     []*packages.Package
-	fset      *token.FileSet
-	contracts *ContractSet
-	globals   map[*ssa.Global]int
-	closures  map[string]*ssa.MakeClosure
-	specMemo  map[*VC]map[string]Val
-	lastSort  map[*VC]sortInfo
-	funcs     map[string]*ssa.Function
-	funcRefs  map[string]int
-	gwCache   map[*ssa.Package][]string
+	prog        *ssa.Program
+	pkgs        []*ssa.Package
+	tpkgs       []*packages.Package
+	fset        *token.FileSet
+	contracts   *ContractSet
+	globals     map[*ssa.Global]int
+	closures    map[string]*ssa.MakeClosure
+	specMemo    map[*VC]map[string]Val
+	lastSort    map[*VC]sortInfo
+	funcs       map[string]*ssa.Function
+	funcRefs    map[string]int
+	gwCache     map[*ssa.Package][]string
 	replayHints map[string]map[string]string
 }
 
@@ -216,6 +218,62 @@ func (e *Engine) verifyFunc(key string) (*VC, error) {
 		}
 		vc.assert(t)
 	}
+	// preconditions with ghosts hold for every value of the ghosts: also at the terms of the
+	// `instantiate` clauses that can be evaluated in the entry state (one ghost at a time)
+	{
+		terms := map[string][]string{} // sort -> instantiation terms
+		for _, x := range c.Instantiate {
+			ienv := vc.specEnv(fr, entry, nil)
+			v, err := ienv.eval(x)
+			if err != nil || v.T == "" || v.Typ == nil {
+				continue
+			}
+			srt := vc.S.sortOf(v.Typ)
+			terms[srt] = append(terms[srt], v.T)
+		}
+		if len(terms) > 0 {
+			// every combination of "the ghost itself" and the terms of its sort (bounded)
+			combos := []map[string]string{{}}
+			for _, g := range c.Ghosts {
+				gv, ok := vc.ghosts[g.Name]
+				if !ok {
+					continue
+				}
+				cands := append([]string{""}, terms[vc.S.sortOf(gv.Typ)]...)
+				var next []map[string]string
+				for _, m := range combos {
+					for _, t := range cands {
+						n := map[string]string{}
+						for k, v := range m {
+							n[k] = v
+						}
+						if t != "" {
+							n[g.Name] = t
+						}
+						next = append(next, n)
+					}
+				}
+				if len(next) > 64 {
+					next = next[:64]
+				}
+				combos = next
+			}
+			for _, m := range combos {
+				if len(m) == 0 {
+					continue
+				}
+				genv := vc.specEnv(fr, entry, nil)
+				for k, t := range m {
+					genv.vars[k] = Val{T: t, Typ: vc.ghosts[k].Typ}
+				}
+				for _, r := range c.Requires {
+					if t, err := genv.evalBool(r.Expr); err == nil {
+						vc.assert(t)
+					}
+				}
+			}
+		}
+	}
 	// vacuity canary: the precondition must be satisfiable
 	vc.obls = append(vc.obls, &Obligation{ID: len(vc.obls), Func: key, Kind: "canary", Name: "precondition is satisfiable (must be refuted)",
 		Prefix: len(vc.lines), Reach: "true", Goal: "false", ExpectFail: true})
@@ -280,6 +338,8 @@ func (e *Engine) verifyFunc(key string) (*VC, error) {
 			}
 		}
 		vc.frameCheck(fr, c, st, ri, pos)
+		vc.obls = append(vc.obls, &Obligation{ID: len(vc.obls), Func: key, Kind: "canary", Name: fmt.Sprintf("return %d is reachable under the precondition", ri),
+			Pos: pos, Prefix: len(vc.lines), Reach: "true", Goal: not(r.reach), ExpectFail: true, ReachProbe: true, Allow: c.Unreachable})
 		if c.HasPropagates {
 			nres := fn.Signature.Results().Len()
 			if nres > 0 && len(r.vals) == nres {
@@ -404,6 +464,24 @@ func (e *Engine) runInit(vc *VC, fn *ssa.Function, st *state) {
 		}
 		vc.store(st, &Loc{Kind: LCell, Ref: e.globalRef(g), Cell: pt}, vc.S.zero(pt))
 	}
+	// //go:embed string variables hold the contents of the named file of the package directory (the
+	// compiler puts it there; the initialiser does not): a constant when the file is small, otherwise
+	// an unknown string
+	for name, content := range e.embeds(fn.Pkg) {
+		g, ok := fn.Pkg.Members[name].(*ssa.Global)
+		if !ok {
+			continue
+		}
+		pt := g.Type().Underlying().(*types.Pointer).Elem()
+		if b, isStr := pt.Underlying().(*types.Basic); !isStr || b.Kind() != types.String {
+			continue
+		}
+		term := vc.freshConst("embed:"+name, "String")
+		if content != nil && len(*content) <= 1024 {
+			term = smtString(*content)
+		}
+		vc.store(st, &Loc{Kind: LCell, Ref: e.globalRef(g), Cell: pt}, term)
+	}
 	if g, ok := fn.Pkg.Members["init$guard"].(*ssa.Global); ok {
 		// the initialiser has not run yet
 		l := &Loc{Kind: LCell, Ref: e.globalRef(g), Cell: types.Typ[types.Bool]}
@@ -468,7 +546,6 @@ func (e *Engine) globalWrites(pkg *ssa.Package) []string {
 	return out
 }
 
-
 // notFunctional: reasons why fn's result may depend on more than its arguments.
 func (e *Engine) notFunctional(fn *ssa.Function) []string {
 	var out []string
@@ -509,6 +586,49 @@ func (e *Engine) notFunctional(fn *ssa.Function) []string {
 					continue
 				}
 				out = append(out, "calls "+k+", which is not functional")
+			}
+		}
+	}
+	return out
+}
+
+// embeds returns the package-level variables carrying a //go:embed directive with the contents of
+// the embedded file (nil when it cannot be read).
+func (e *Engine) embeds(pkg *ssa.Package) map[string]*string {
+	out := map[string]*string{}
+	for _, tp := range e.tpkgs {
+		if tp.Types != pkg.Pkg {
+			continue
+		}
+		for _, f := range tp.Syntax {
+			dir := filepath.Dir(e.fset.Position(f.Pos()).Filename)
+			for _, d := range f.Decls {
+				gd, ok := d.(*ast.GenDecl)
+				if !ok || gd.Tok != token.VAR {
+					continue
+				}
+				for _, sp := range gd.Specs {
+					vs, ok := sp.(*ast.ValueSpec)
+					if !ok || len(vs.Names) != 1 {
+						continue
+					}
+					for _, doc := range []*ast.CommentGroup{vs.Doc, gd.Doc} {
+						if doc == nil {
+							continue
+						}
+						for _, c := range doc.List {
+							if strings.HasPrefix(c.Text, "//go:embed ") {
+								file := strings.TrimSpace(strings.TrimPrefix(c.Text, "//go:embed "))
+								var content *string
+								if b, err := os.ReadFile(filepath.Join(dir, file)); err == nil {
+									sb := string(b)
+									content = &sb
+								}
+								out[vs.Names[0].Name] = content
+							}
+						}
+					}
+				}
 			}
 		}
 	}
